@@ -540,6 +540,8 @@ func (cs *ContractSet) ParseContractText(pkgPath, file, text string) error {
 		}
 	}
 	var cur *FuncContract
+	var blockProps []string
+	var blockMark []int
 	for _, rc := range raws {
 		errf := func(err error) error { return fmt.Errorf("%s:%d: %v", file, rc.line, err) }
 		switch rc.kw {
@@ -704,7 +706,14 @@ func (cs *ContractSet) ParseContractText(pkgPath, file, text string) error {
 				cur = &FuncContract{Pkg: pkgPath, Name: name, File: file, Line: rc.line, Extra: map[string][]string{}}
 				cs.Funcs[pkgPath+"."+name] = cur
 			}
+			blockProps = nil
+			blockMark = cur.clauseCounts()
 		case "end":
+			// an untagged clause belongs to the properties named in ITS OWN block (props and sweep of that block):
+			// adding a block for another property elsewhere must not move it
+			if cur != nil && len(blockProps) > 0 {
+				cur.tagUntaggedSince(blockMark, blockProps)
+			}
 			cur = nil
 		default:
 			if cur == nil {
@@ -716,12 +725,20 @@ func (cs *ContractSet) ParseContractText(pkgPath, file, text string) error {
 					if !hasProp(cur.Props, f) {
 						cur.Props = append(cur.Props, f)
 					}
+					if !hasProp(blockProps, f) {
+						blockProps = append(blockProps, f)
+					}
 				}
 			case "pure":
 				cur.Pure = true
 			case "sweep":
 				cur.Sweep = true
 				cur.Extra["sweep"] = append(cur.Extra["sweep"], strings.Fields(rc.rest)...)
+				for _, f := range strings.Fields(rc.rest) {
+					if !strings.HasPrefix(f, "-") && !hasProp(blockProps, f) {
+						blockProps = append(blockProps, f)
+					}
+				}
 			case "trusted":
 				cur.Trusted = true
 			case "functional":
@@ -927,4 +944,31 @@ func (c *FuncContract) AllProps() []string {
 		}
 	}
 	return out
+}
+
+// clauseCounts / tagUntaggedSince implement block-local default properties (see the "end" case of the parser).
+func (c *FuncContract) clauseLists() []*[]*Clause {
+	return []*[]*Clause{&c.Requires, &c.Ensures, &c.Invs, &c.Decs, &c.Assumes, &c.Steps, &c.AtCalls}
+}
+
+func (c *FuncContract) clauseCounts() []int {
+	var out []int
+	for _, l := range c.clauseLists() {
+		out = append(out, len(*l))
+	}
+	return out
+}
+
+func (c *FuncContract) tagUntaggedSince(mark []int, props []string) {
+	for k, l := range c.clauseLists() {
+		from := 0
+		if k < len(mark) {
+			from = mark[k]
+		}
+		for _, cl := range (*l)[from:] {
+			if len(cl.Props) == 0 {
+				cl.Props = append([]string{}, props...)
+			}
+		}
+	}
 }
